@@ -173,8 +173,8 @@ package template
 //@   ensures wft: (c.state == stateText ==> !isspecial(c.element.name)) && r.state == stateText ==> !isspecial(r.element.name)
 //@   ensures cmt: r.state == stateHTMLCmt ==> c.state == stateHTMLCmt
 //@   ensures wf: r.state <= stateError && r.delim <= delimSpaceOrTagEnd && 0 <= n && n <= len(s)
-//@   ensures found: isspecial(c.element.name) && exists(p, 0, len(s), endtagat(s, p, c.element.name)) ==> r.state == stateText && r.delim == delimNone && len(r.element.name) == 0 && len(r.attr.name) == 0 && isnil(r.err) && len(r.linkRel) == 0 && len(r.scriptType) == 0 && 0 <= n && n < len(s) && endtagat(s, n, c.element.name) && forall(p, 0, n, !endtagat(s, p, c.element.name))
-//@   ensures none: !(isspecial(c.element.name) && exists(p, 0, len(s), endtagat(s, p, c.element.name))) ==> same(r, c) && n == len(s)
+//@   ensures found: c.state == stateSpecialElementBody && isspecial(c.element.name) && exists(p, 0, len(s), endtagat(s, p, c.element.name)) ==> r.state == stateText && r.delim == delimNone && len(r.element.name) == 0 && len(r.attr.name) == 0 && isnil(r.err) && len(r.linkRel) == 0 && len(r.scriptType) == 0 && 0 <= n && n < len(s) && endtagat(s, n, c.element.name) && forall(p, 0, n, !endtagat(s, p, c.element.name))
+//@   ensures none: !(c.state == stateSpecialElementBody && isspecial(c.element.name) && exists(p, 0, len(s), endtagat(s, p, c.element.name))) ==> same(r, c) && n == len(s)
 
 //@ func tText(c context, s []byte) (r context, n int)
 //@   serves C01 C08
